@@ -25,6 +25,6 @@ PROP = dict(
              'repeat expansion; macro replay depth/budget',
     not_modelled='time, memory, stack (oracle only); sixel decode, font loaders, binary loaders (oracle only)',
     assumptions=['thresholds of the oracle: a token slower than 400 ms (debug build), a token adding more than one screenful '
-                 '+ its own length of rows, a loader allocating more than 4M cells, or a worker killed by the 6 GB '
+                 '+ its own length of rows, a loader allocating more than 8M cells, or a worker killed by the 6 GB '
                  'address-space cap / 20 s without progress counts as a violation'],
 )
